@@ -700,8 +700,8 @@ class Engine:
         st.conds.append((v, 0))
         return [(s1, not neg), (st, neg)]
 
-    ADAPTER_CONSUMERS = ('for_each', 'any', 'all', 'find', 'position', 'fold')
-    ADAPTER_LAZY_CLOSURE = ('filter', 'map')
+    ADAPTER_CONSUMERS = ('for_each', 'any', 'all', 'find', 'position', 'fold', 'try_fold', 'retain', 'retain_mut', 'extend')
+    ADAPTER_LAZY_CLOSURE = ('filter', 'map', 'flat_map')
     ADAPTER_LAZY_PLAIN = ('cloned', 'copied', 'enumerate', 'rev', 'by_ref')
     ADAPTER_SOURCES = ('iter', 'into_iter', 'iter_mut')
 
@@ -785,23 +785,46 @@ class Engine:
 
     def _adapter_call(self, st, fn, fid, t, name, args):
         base = name.rsplit('::', 1)[-1]
-        if base not in self.ADAPTER_CONSUMERS or 'Iterator' not in name or not args:
+        if base not in self.ADAPTER_CONSUMERS or not args:
             return None
-        n_clo = 2 if base == 'fold' else 1
-        if len(args) != 1 + n_clo:
-            return None
-        clo = args[-1]
-        if self._closure_fn(clo) is None:
-            return None
-        parsed = self._parse_chain(st, args[0])
-        if parsed is None:
-            return None
+        in_place = base in ('retain', 'retain_mut')
+        extend = base == 'extend'
+        if extend:
+            # `list.extend(<adapter chain>)`: every element the chain yields is pushed onto the receiver (shown as a push event);
+            # only chains with at least one closure stage are interpreted, a plain `extend(other)` stays an opaque call
+            if 'Extend' not in name or len(args) != 2 or not re.search(r'(Vec|SmallVec|VecDeque)<', name):
+                return None
+            parsed = self._parse_chain(st, args[1])
+            if parsed is None or not any(len(s_) == 2 for s_ in parsed[1]):
+                return None
+            clo = None
+        else:
+            if in_place != ('Iterator' not in name):
+                return None
+            if in_place and not re.search(r'(Vec|SmallVec|VecDeque)::<', name):
+                return None
+            n_clo = 2 if base in ('fold', 'try_fold') else 1
+            if len(args) != 1 + n_clo:
+                return None
+            clo = args[-1]
+            if self._closure_fn(clo) is None:
+                return None
+            parsed = (args[0], []) if in_place else self._parse_chain(st, args[0])
+            if parsed is None:
+                return None
         source, stages = parsed
         uid = next(self.uid)
         marker = ('adapter', uid)
-        closures = [s_[1] for s_ in stages if len(s_) == 2] + [clo]
+        closures = [s_[1] for s_ in stages if len(s_) == 2] + ([clo] if clo is not None else [])
         elems = self._literal_elements(st, source) if self.unroll else None
-        acc_key = 'acc%d' % uid if base == 'fold' else None
+        acc_key = 'acc%d' % uid if base in ('fold', 'try_fold') else None
+        wrap = None
+        if base == 'try_fold':
+            rty = self._closure_fn(clo).local_ty(0)
+            wrap = ((RESULT, 'Ok') if rty.startswith('std::result::Result<') else (OPTION, 'Some') if rty.startswith('std::option::Option<')
+                    else None)
+            if wrap is None:
+                return None
         if elems is None:
             # abstract mode: loop variables are everything the closures may assign
             before = {}
@@ -864,6 +887,31 @@ class Engine:
                             out.extend(cont(s3))
                     return out
                 return call_closure(s_, clo, [('ref', ('K', elem))], k)
+            if extend:
+                push = 'smallvec::SmallVec::<A>::push' if 'SmallVec' in name else 'std::vec::Vec::<T, A>::push'
+                s_.epoch += 1
+                s_.events.append(('call', push, (args[0], elem), next(self.uid), fn.name, t['span'], (), s_.epoch))
+                return cont(s_)
+            if in_place:
+                # Vec::retain: one arbitrary element, kept in place (same relative order) iff the predicate holds
+                def k(s2, v):
+                    out = []
+                    for s3, truth in self._fork_bool(s2, v):
+                        s3.events.append(('retain', marker, truth, elem, source))
+                        out.extend(cont(s3))
+                    return out
+                return call_closure(s_, clo, [('ref', ('K', elem))], k)
+            if base == 'try_fold':
+                # the closure yields Ok(acc') / Some(acc') to go on, anything else ends the fold with that value
+                def k(s2, v):
+                    if v[0] == 'agg' and v[1] == 'adt' and v[3] in ('Ok', 'Some'):
+                        nv = dict(v[4]).get('0', UNIT)
+                        s2.frames[fid][acc_key] = nv
+                        return cont(s2) if elems is not None else backedge(s2, nv)
+                    if v[0] == 'agg' and v[1] == 'adt' and v[3] in ('Err', 'None'):
+                        return finish_exit(s2, v)
+                    return [Outcome('limit', None, s2, where=(fn.name, 'try_fold closure result of unknown variant'))]
+                return call_closure(s_, clo, [s_.frames[fid][acc_key], elem], k)
             if base == 'fold':
                 def k(s2, v):
                     s2.frames[fid][acc_key] = v
@@ -871,35 +919,64 @@ class Engine:
                 return call_closure(s_, clo, [s_.frames[fid][acc_key], elem], k)
             return None
 
-        def stage(s_, i, elem, pos, cont):
-            if i == len(stages):
-                return consume(s_, elem, pos, cont)
-            sg = stages[i]
+        def stage(s_, i, elem, pos, cont, sl=None, sink=None):
+            sl = stages if sl is None else sl
+            sink = consume if sink is None else sink
+            if i == len(sl):
+                return sink(s_, elem, pos, cont)
+            sg = sl[i]
             if sg[0] in ('cloned', 'copied'):
-                return stage(s_, i + 1, ('der', elem) if not (elem[0] == 'ref' and elem[1][0] == 'K') else elem[1][1], pos, cont)
+                return stage(s_, i + 1, ('der', elem) if not (elem[0] == 'ref' and elem[1][0] == 'K') else elem[1][1], pos, cont, sl, sink)
             if sg[0] == 'enumerate':
-                return stage(s_, i + 1, mk_tuple(pos, elem), pos, cont)
+                return stage(s_, i + 1, mk_tuple(pos, elem), pos, cont, sl, sink)
             if sg[0] in ('rev', 'by_ref'):
-                return stage(s_, i + 1, elem, pos, cont)
+                return stage(s_, i + 1, elem, pos, cont, sl, sink)
             if sg[0] == 'map':
-                return call_closure(s_, sg[1], [elem], lambda s2, v: stage(s2, i + 1, v, pos, cont))
+                return call_closure(s_, sg[1], [elem], lambda s2, v: stage(s2, i + 1, v, pos, cont, sl, sink))
             if sg[0] == 'filter':
                 def k(s2, v):
                     out = []
                     for s3, truth in self._fork_bool(s2, v):
-                        out.extend(stage(s3, i + 1, elem, pos, cont) if truth else cont(s3))
+                        out.extend(stage(s3, i + 1, elem, pos, cont, sl, sink) if truth else cont(s3))
                     return out
                 return call_closure(s_, sg[1], [('ref', ('K', elem))], k)
+            if sg[0] == 'flat_map':
+                # the closure yields an inner iterator: its elements flow on through the remaining outer stages
+                def k(s2, v):
+                    inner = self._parse_chain(s2, v)
+                    if inner is None:
+                        return [Outcome('limit', None, s2, where=(fn.name, 'flat_map over an unrecognised inner iterator'))]
+                    src2, st2 = inner
+                    uid2 = next(self.uid)
+                    s2.events.append(('adapter', 'flat_map', ('adapter', uid2), src2, tuple(x[0] for x in st2)))
+
+                    def after(s3, e3, p3, c3):
+                        return stage(s3, i + 1, e3, pos, c3, sl, sink)
+                    el2 = self._literal_elements(s2, src2) if self.unroll else None
+                    if el2 is None:
+                        by_ref = src2[0] == 'call' and src2[1].rsplit('::', 1)[-1] in ('iter', 'iter_mut')
+                        e0 = ('elem', uid2)
+                        return stage(s2, 0, ('ref', ('K', e0)) if by_ref else e0, ('pos', uid2), cont, st2, after)
+                    if any(x[0] == 'rev' for x in st2):
+                        el2 = list(reversed(el2))
+
+                    def run2(s3, j):
+                        if j == len(el2):
+                            return cont(s3)
+                        return stage(s3, 0, el2[j], C(j), lambda s4: run2(s4, j + 1), st2, after)
+                    return run2(s2, 0)
+                return call_closure(s_, sg[1], [elem], k)
             return cont(s_)
 
         def exit_value(s_):
-            if base == 'for_each':
+            if base == 'for_each' or in_place:
                 return UNIT
             if base in ('any', 'all'):
                 return C(base == 'all')
             if base in ('find', 'position'):
                 return mk_adt(OPTION, 'None', [])
-            return s_.frames[fid][acc_key] if elems is not None else ('lv', marker, acc_key)
+            acc = s_.frames[fid][acc_key] if elems is not None else ('lv', marker, acc_key)
+            return mk_adt(wrap[0], wrap[1], [('0', acc)]) if wrap else acc
 
         if elems is not None:
             if any(s_[0] == 'rev' for s_ in stages):
@@ -1632,6 +1709,20 @@ def m_int_method(opname):
             return [(st, binop({'wrapping_add': 'Add', 'wrapping_sub': 'Sub', 'wrapping_mul': 'Mul'}[opname],
                                 args[0], args[1], ty) if all(is_const(x) for x in args) else
                      ('bin', 'W' + opname[9:].capitalize(), args[0], args[1]))]
+        if opname in ('checked_sub', 'saturating_sub') and len(args) == 2 and ty is not None and ty.startswith('u'):
+            # unsigned: underflow exactly when a < b; both outcomes are ordinary branches on that comparison
+            a_, b_ = args
+            if all(is_const(x) and isinstance(x[1], int) for x in args):
+                lt = [(st, a_[1] < b_[1])]
+            else:
+                lt = eng._fork_bool(st, ('bin', 'Lt', a_, b_))
+            out = []
+            for s2, under in lt:
+                if opname == 'checked_sub':
+                    out.append((s2, mk_adt(OPTION, 'None', []) if under else mk_adt(OPTION, 'Some', [('0', binop('Sub', a_, b_, ty))])))
+                else:
+                    out.append((s2, C(0) if under else binop('Sub', a_, b_, ty)))
+            return out
         return [(st, ('call', opname, tuple(args), None))]
     return m
 
@@ -1888,6 +1979,8 @@ PATTERN_MODELS = [
     (re.compile(r'^core::num::<impl \w+>::wrapping_add$'), m_int_method('wrapping_add')),
     (re.compile(r'^core::num::<impl \w+>::wrapping_sub$'), m_int_method('wrapping_sub')),
     (re.compile(r'^core::num::<impl \w+>::wrapping_mul$'), m_int_method('wrapping_mul')),
+    (re.compile(r'^core::num::<impl u\w+>::checked_sub$'), m_int_method('checked_sub')),
+    (re.compile(r'^core::num::<impl u\w+>::saturating_sub$'), m_int_method('saturating_sub')),
     (re.compile(r'^std::clone::impls::<impl std::clone::Clone for \w+>::clone$'), m_clone),
     (re.compile(r'^<\w+ as std::convert::From<\w+>>::from$'), m_from_into),
     (re.compile(r'^std::convert::num::<impl std::convert::From<\w+> for \w+>::from$'), m_from_into),
